@@ -258,7 +258,10 @@ impl ConcreteReadableShape for Multipoint {
         bbox_read_xy_from(&mut bbox, source)?;
 
         let num_points = source.read_i32::<LittleEndian>()?;
-        if record_size == Self::size_of_record(num_points) as i32 {
+        checked_count(num_points)?;
+        let record_size =
+            usize::try_from(record_size).map_err(|_| Error::InvalidShapeRecordSize)?;
+        if record_size == Self::size_of_record(num_points) {
             let points = read_xy_in_vec_of::<Point, T>(source, num_points)?;
             Ok(Self { bbox, points })
         } else {
@@ -334,9 +337,12 @@ impl ConcreteReadableShape for MultipointM {
         bbox_read_xy_from(&mut bbox, source)?;
 
         let num_points = source.read_i32::<LittleEndian>()?;
+        checked_count(num_points)?;
 
-        let size_with_m = Self::size_of_record(num_points, true) as i32;
-        let size_without_m = Self::size_of_record(num_points, false) as i32;
+        let record_size =
+            usize::try_from(record_size).map_err(|_| Error::InvalidShapeRecordSize)?;
+        let size_with_m = Self::size_of_record(num_points, true);
+        let size_without_m = Self::size_of_record(num_points, false);
 
         if (record_size != size_with_m) & (record_size != size_without_m) {
             Err(Error::InvalidShapeRecordSize)
@@ -428,9 +434,12 @@ impl ConcreteReadableShape for MultipointZ {
         let mut bbox = GenericBBox::<PointZ>::default();
         bbox_read_xy_from(&mut bbox, source)?;
         let num_points = source.read_i32::<LittleEndian>()?;
+        checked_count(num_points)?;
 
-        let size_with_m = Self::size_of_record(num_points, true) as i32;
-        let size_without_m = Self::size_of_record(num_points, false) as i32;
+        let record_size =
+            usize::try_from(record_size).map_err(|_| Error::InvalidShapeRecordSize)?;
+        let size_with_m = Self::size_of_record(num_points, true);
+        let size_without_m = Self::size_of_record(num_points, false);
 
         if (record_size != size_with_m) & (record_size != size_without_m) {
             Err(Error::InvalidShapeRecordSize)
